@@ -143,25 +143,19 @@ func (r *ChunkReader) ReadChunk(size uint16) (*KV, error) {
 	//
 	// The size of the value that will be read is unknown, but its max is, so a
 	// max overhead can be calculated.
-	maxOverhead := 1 + len(r.rkey) + 1
-	if int(size)-maxOverhead >= 24 {
-		maxOverhead++
-	}
-	if int(size)-maxOverhead >= 256 {
-		maxOverhead++
-	}
-	if int(size)-maxOverhead <= 0 {
+	maxVal := maxChunkValueSize(int(size), len(r.rkey))
+	if maxVal <= 0 {
 		return nil, ErrSizeTooSmall
 	}
 
 	// Grow buffer if not large enough
-	if len(r.buffer) < int(size)-maxOverhead {
-		r.buffer = make([]byte, int(size)-maxOverhead)
+	if len(r.buffer) < maxVal {
+		r.buffer = make([]byte, maxVal)
 	}
 
 	// Read data, ensuring ServiceInfo will not be larger than size once
 	// marshaled to CBOR
-	n, err := io.ReadFull(r.r, r.buffer[:int(size)-maxOverhead])
+	n, err := io.ReadFull(r.r, r.buffer[:maxVal])
 	if err == io.EOF || err == io.ErrUnexpectedEOF {
 		r.r = nil
 		if n == 0 {
@@ -180,6 +174,19 @@ func (r *ChunkReader) ReadChunk(size uint16) (*KV, error) {
 		Key: r.key,
 		Val: val,
 	}, nil
+}
+
+// maxChunkValueSize returns how many value bytes of a ServiceInfo with the
+// given CBOR encoded key length ReadChunk puts into size bytes.
+func maxChunkValueSize(size, encodedKeyLen int) int {
+	maxOverhead := 1 + encodedKeyLen + 1
+	if size-maxOverhead >= 24 {
+		maxOverhead++
+	}
+	if size-maxOverhead >= 256 {
+		maxOverhead++
+	}
+	return size - maxOverhead
 }
 
 // Close the reader if no more reads will be performed so that the Writer
